@@ -96,6 +96,55 @@ Proof.
   unfold vec_resize. cbn [opv fieldv M.gr_len M.gr_fill M.gr_cap]. rewrite H, E. reflexivity.
 Qed.
 
+(* ---------------------------------------------------------------- parse_more: what it keeps of data() *)
+(* input.iter().rposition(|&x| x == b'\n'), counting from [i] *)
+Fixpoint rposition_nl (d : list Z) (i : Z) : option Z :=
+  match d with
+  | [] => None
+  | c :: t => match rposition_nl t (i + 1) with
+              | Some j => Some j
+              | None => if c =? 10 then Some i else None
+              end
+  end.
+
+Definition search_nl (k : M.nl_search) (d : list Z) : option Z :=
+  match k with M.FirstNewline => position_nl d 0 | M.LastNewline => rposition_nl d 0 end.
+
+(* `if let Some(idx) = <search> { &input[..idx + <add>] } else { return Ok(<none>) }`: the slice parse_more goes on with, and
+   (all its lines parsed) the number it returns *)
+Definition trim_src (d : list Z) : list Z :=
+  match search_nl M.pm_trim_search d with
+  | Some idx => zfirstn (idx + M.pm_trim_add) d
+  | None => zfirstn M.pm_no_newline_result d
+  end.
+
+Lemma rposition_trim : forall d i,
+  match rposition_nl d i with
+  | Some j => i <= j /\ trim_nl d = zfirstn (j - i + 1) d
+  | None => trim_nl d = []
+  end.
+Proof.
+  induction d as [|c t IH]; intros i; cbn [rposition_nl trim_nl]; [reflexivity|].
+  specialize (IH (i + 1)). destruct (rposition_nl t (i + 1)) as [j|] eqn:E.
+  - destruct IH as [Hj Ht]. split; [lia|].
+    destruct t as [|y t']; [cbn [rposition_nl] in E; discriminate E|].
+    rewrite Ht. unfold zfirstn.
+    replace (Z.to_nat (j - i + 1)) with (S (Z.to_nat (j - (i + 1) + 1))) by lia.
+    replace (Z.to_nat (j - (i + 1) + 1)) with (S (Z.to_nat (j - (i + 1)))) by lia.
+    reflexivity.
+  - rewrite IH. destruct (c =? 10).
+    + split; [lia|]. replace (i - i + 1) with 1 by lia. reflexivity.
+    + reflexivity.
+Qed.
+
+Lemma pin_trim : forall d, trim_src d = trim_nl d.
+Proof.
+  intros d. unfold trim_src, search_nl, M.pm_trim_search, M.pm_trim_add, M.pm_no_newline_result.
+  pose proof (rposition_trim d 0) as H. destruct (rposition_nl d 0) as [j|].
+  - destruct H as [_ H]. rewrite H. f_equal. lia.
+  - rewrite H. reflexivity.
+Qed.
+
 Lemma pin_memory_ops :
   (forall c, with_capacity_src c = with_capacity c) /\
   (forall b, bdata_src b = bdata b /\ bspace_slice_src b = bspace_slice b) /\
